@@ -51,7 +51,8 @@ def case_st(draw):
     return {"nodes": draw(st.lists(node_st(n), min_size=n, max_size=n)), "start": draw(st.integers(0, n - 1)),
             "maxr": draw(st.integers(0, 6)), "follow": draw(st.integers(0, 4)) > 0,
             "badhost": draw(st.sampled_from([None, None, "a", "b", "c"])),
-            "bad_after": draw(st.sampled_from([0, 0, 1, 2]))}  # the bad host presents its pinned certificate on the first k connections
+            "bad_after": draw(st.sampled_from([0, 0, 1, 2])),  # the bad host presents its pinned certificate on the first k connections
+            "identity": draw(st.sampled_from([None, None, "ec-b", "rsa-a"]))}  # the client is configured with a client certificate
 
 
 def enum_small(tier):
@@ -64,6 +65,9 @@ def enum_small(tier):
                 for follow in (True, False):
                     for bad, after in ((None, 0), ("b", 0), ("a", 1)):
                         yield {"nodes": list(nodes), "start": 0, "maxr": maxr, "follow": follow, "badhost": bad, "bad_after": after}
+                        if bad == "b" and follow:
+                            yield {"nodes": list(nodes), "start": 0, "maxr": maxr, "follow": follow, "badhost": bad, "bad_after": after,
+                                   "identity": "ec-b"}
 
 
 def enum_revisit(tier):
@@ -145,7 +149,11 @@ def run_case(case: dict):
         db = TOFUDatabase(dbpath)
         for h in HOSTS:
             db.trust(h, 1965, x509.load_der_x509_certificate(certs.get("ec-a").der))
-        client = GeminiClient(timeout=10, max_redirects=case["maxr"], tofu_db_path=dbpath)
+        ident = {}
+        if case.get("identity"):
+            ic = certs.get(case["identity"])
+            ident = {"client_cert": Path(ic.cert_path), "client_key": Path(ic.key_path)}
+        client = GeminiClient(timeout=10, max_redirects=case["maxr"], tofu_db_path=dbpath, **ident)
         try:
             r = await client.get(url_of(case["start"]), follow_redirects=case["follow"])
             res = ("resp", r.status, r.meta, r.body)
@@ -161,11 +169,19 @@ def run_case(case: dict):
                 lines.append(bytes(c.received).split(b"\r\n", 1)[0])
         return res, [(h, p) for (h, p, _t) in loop.connection_log], lines
 
+    import os
+
+    old_home = os.environ.get("HOME")
+    os.environ["HOME"] = d  # a client that falls back to its default trust store must not touch the real one
     try:
         res, conns, lines = vloop.run(scenario, horizon=1e6)
     finally:
         import shutil
 
+        if old_home is None:
+            os.environ.pop("HOME", None)
+        else:
+            os.environ["HOME"] = old_home
         shutil.rmtree(d, ignore_errors=True)
     info = {"result": str(res)[:100], "connections": len(conns)}
     maxr = case["maxr"]
@@ -230,7 +246,7 @@ def _nontrivial(case, v):
 
 def _labels(case, v):
     return ["ref:" + str(v.info.get("ref")), "follow" if case["follow"] else "nofollow", "maxr:%d" % case["maxr"],
-            "bad:" + str(case["badhost"]), "n:%d" % len(case["nodes"])]
+            "bad:" + str(case["badhost"]), "n:%d" % len(case["nodes"])] + (["client-cert"] if case.get("identity") else [])
 
 
 LANES = [
